@@ -54,24 +54,30 @@ def secondary_spill(e):
 
 
 def fee_dust(e, prev_r, r):
-    """Tokens credited to the pools but never collected by this step, when it has exactly the shape of the
-    known rounding leak of pay_for_fees_excluding_funding: a successful decrease whose collateral ran out, with
-    pnl token != collateral token, no swap executed, NO pnl tokens used to pay costs, fees booked (not cleared),
-    the pnl-token ledger exact, and the uncollected remainder of the fees worth strictly less than one
-    pnl-token base unit at this event's prices (do_pay_for_cost floors it to zero secondary tokens).
+    """Tokens credited to the pools but never collected by this step, recognised by the MECHANISM of the known
+    rounding leak of pay_for_fees_excluding_funding (same criterion as ExchangeProps!DustOf): a successful
+    decrease of a position with pnl token != collateral token whose collateral ran out; the collateral-token
+    ledger shows an over-credit E with 0 < E <= the fees booked by the report and E * collateral price (min)
+    strictly below one pnl-token base unit (min price) at THIS event's prices -- do_pay_for_cost floored the
+    unpaid remainder to zero secondary tokens -- while the pnl-token ledger is exact.  Any path qualifies
+    (plain close, profit swap, liquidation, insolvent close stopping at a later step; later steps may
+    legitimately pay from the secondary output).  A change that books fees paid with pnl tokens in the wrong
+    token breaks the pnl-token ledger and is therefore never absorbed.
     Returns [dust_long, dust_short] or None if the step does not have that shape."""
-    if not (e["op"] == "decrease" and e["ok"] and e["ncb"] == 0 and prev_r is not None):
+    if not (e["op"] == "decrease" and e["ok"] and prev_r is not None):
         return None
     p = e["ps"][e["arg"]["pos"] - 1]
     tc, tp = _ix(p["cl"]), _ix(p["long"])
-    if tc == tp or p["col"] != 0 or "swapped" in e["cbs"] or "swap_error" in e["cbs"]:
-        return None
-    if secondary_spill(e) != 0 or e["r"]["insolv"]:
+    if tc == tp or p["col"] != 0:
         return None
     exc = []
     for t in (0, 1):
         due = e["r"]["fund"] if t == tc else 0
-        exc.append(due - e["r"]["cf"][t] - (r[t] - prev_r[t]))
+        hi = due - e["r"]["cf"][t]
+        lo = -e["r"]["cf"][t]
+        d = r[t] - prev_r[t]
+        # with a reported insufficient funding payment the funding collected is anywhere in 0..due
+        exc.append(hi - d if e["ncb"] == 0 else max(0, lo - d) if d < lo else (0 if d <= hi else hi - d))
     pc = e["px"]["lmin"] if tc == 0 else e["px"]["smin"]
     pp = e["px"]["lmin"] if tp == 0 else e["px"]["smin"]
     if 0 < exc[tc] <= e["r"]["fee_ex"] and exc[tp] == 0 and exc[tc] * pc < pp:
